@@ -879,6 +879,8 @@ def itemspace_recalc(ctx, out, stats):
                 # it is registered in known_findings.json under IS_KEY (then it is reported as that known finding)
                 stats["itemspace_set_aside_known_class"] += 1
                 continue
+            if reported >= 6:
+                break
             small = is_shrink(spec, ops, k, in_class) if reported < 2 else ops[:k + 1]
             f = is_check(spec, small)
             text = f[0][0] if f else text
